@@ -106,7 +106,7 @@ func runProperty(E *Engine, prop string, cfg *PropCfg, tier string, seed int) *R
 		t0 := time.Now()
 		cmd := exec.Command("bash", "-c", b.Cmd)
 		cmd.Dir = verifDir
-		cmd.Env = append(os.Environ(), "VERIF_TIER="+tier, fmt.Sprintf("VERIF_SEED=%d", seed))
+		cmd.Env = append(os.Environ(), "VERIF_TIER="+tier, fmt.Sprintf("VERIF_SEED=%d", seed), "VERIF_REPO="+E.P.Repo)
 		out, err := cmd.CombinedOutput()
 		br := BoundedRes{Name: b.Name, Bound: b.Bound, Cmd: b.Cmd, OK: err == nil, Secs: time.Since(t0).Seconds(), Output: tail(string(out), 2000)}
 		if m := regexp.MustCompile(`CASES=(\d+)`).FindStringSubmatch(string(out)); m != nil {
@@ -308,11 +308,11 @@ func (rep *Report) finish(E *Engine, prop string, cfg *PropCfg, tier string, see
 		smp = append(smp, "no non-trivial obligation")
 	}
 	cov := map[string]interface{}{
-		"obligations":  nobl,
-		"discharged":   ndis,
-		"checker_cmd":  fmt.Sprintf("/verif/bin/govc check -prop %s -tier %s  (VC generator over go/ssa of /repo's working tree; z3-new 5.1.0 incremental, then z3 4.8.12 / z3-new / cvc5 1.0 portfolio)", prop, tier),
-		"trusted_base": tb,
-		"samples":      smp,
+		"obligations":              nobl,
+		"discharged":               ndis,
+		"checker_cmd":              fmt.Sprintf("/verif/bin/govc check -prop %s -tier %s  (VC generator over go/ssa of /repo's working tree; z3-new 5.1.0 incremental, then z3 4.8.12 / z3-new / cvc5 1.0 portfolio)", prop, tier),
+		"trusted_base":             tb,
+		"samples":                  smp,
 		"functions_under_contract": funcs,
 		"obligations_by_kind":      byKind,
 		"discharged_by_solver":     bySolver,
